@@ -274,6 +274,20 @@ def m_from_utf8_lossy(c, s):
 def m_from_utf8(c, s):
     ip = c.ip
     its = list(items(ip, s))
+    if getattr(ip, 'lossy_invalid', False):
+        # hostile-input mode (see from_utf8_lossy): a byte that can never occur in UTF-8 makes the strict conversion fail
+        for b in its:
+            if b.concrete:
+                if b.v >= 128:
+                    if b.v in (0xC0, 0xC1) or b.v >= 0xF5:
+                        return err(ip, Opaque('Utf8Error', 'invalid'))
+                    raise Inconclusive("from_utf8 on a concrete multi-byte sequence")
+            elif not ip.branch(z3.ULT(b.v, 128), 'ascii'):
+                ip.assume(z3.Or(b.v == 0xC0, b.v == 0xC1, z3.UGE(b.v, 0xF5)))
+                return err(ip, Opaque('Utf8Error', 'invalid'))
+        if 'String::from_utf8' in c.callee:
+            return ok(ip, Seq(its, 'string'))
+        return ok(ip, Ptr(Cell(Seq(its, 'str'), 'utf8'), ()))
     for b in its:
         if not b.concrete:
             ip.assume(z3.ULT(b.v, 128))
